@@ -79,7 +79,7 @@ var typeError = reflect.TypeOf((*error)(nil)).Elem()
 
 func newYarnSpinnerFunction(function any) (YarnSpinnerFunction, error) {
 	functionType := reflect.TypeOf(function)
-	if functionType.Kind() != reflect.Func {
+	if functionType == nil || functionType.Kind() != reflect.Func || reflect.ValueOf(function).IsNil() {
 		return nil, fmt.Errorf("newYarnSpinnerFunction expects an argument which is a function")
 	}
 
@@ -228,7 +228,8 @@ func createInputConverter(functionType reflect.Type) (func([]*variable.Value) ([
 			if err != nil {
 				return nil, fmt.Errorf("failed to convert argument number %d: %w", i, err)
 			}
-			inputParameters = append(inputParameters, inputParameter)
+			// the parameter may be of a named type of that kind
+			inputParameters = append(inputParameters, inputParameter.Convert(functionType.In(i)))
 		}
 
 		return inputParameters, nil
@@ -246,7 +247,8 @@ func createVariadicInputConverter(functionType reflect.Type) (func([]*variable.V
 		argConverters = append(argConverters, argConverter)
 	}
 
-	variadicArgsConverter, ok := argConverterByGoalKind[functionType.In(numIn-1).Elem().Kind()]
+	variadicType := functionType.In(numIn - 1).Elem()
+	variadicArgsConverter, ok := argConverterByGoalKind[variadicType.Kind()]
 	if !ok {
 		return nil, fmt.Errorf("argument number %d has an unsupported type %v", numIn-1, functionType.In(numIn-1).Kind())
 	}
@@ -262,7 +264,7 @@ func createVariadicInputConverter(functionType reflect.Type) (func([]*variable.V
 			if err != nil {
 				return nil, fmt.Errorf("failed to convert argument number %d: %w", i, err)
 			}
-			inputParameters = append(inputParameters, inputParameter)
+			inputParameters = append(inputParameters, inputParameter.Convert(functionType.In(i)))
 		}
 
 		for i := numIn - 1; i < len(args); i++ {
@@ -270,7 +272,7 @@ func createVariadicInputConverter(functionType reflect.Type) (func([]*variable.V
 			if err != nil {
 				return nil, fmt.Errorf("failed to convert argument number %d: %w", i, err)
 			}
-			inputParameters = append(inputParameters, inputParameter)
+			inputParameters = append(inputParameters, inputParameter.Convert(variadicType))
 		}
 
 		return inputParameters, nil
